@@ -122,6 +122,15 @@ TREE = {
     "root/f.txt?x": "root/f.txt?x (named by f.txt%3fx)\n",
     "root/a?": "root/a? (named by a%3f)\n",
     "root/a%20b": "root/a%20b (named by a%2520b; a%20b names 'a b')\n",
+    # linkcur -> releases/v2/app: "linkcur/../data" denotes releases/v2/data; "data" is what lexical normalisation names
+    "releases/v2/app/x": "app\n",
+    "releases/v2/data/f.txt": "the real data/f.txt (releases/v2/data)\n",
+    "releases/v2/data/f.txt.j2": "the real data/f.txt.j2\n",
+    "releases/v2/data/a/f.txt": "the real data/a/f.txt\n",
+    "data/f.txt": "DECOY at the lexically normalised location\n",
+    "data/f.txt.j2": "DECOY .j2\n",
+    "data/nothere.txt": "DECOY for a file that does not exist where root_dir points\n",
+    "data/a/f.txt": "DECOY a/f.txt\n",
     # falsy-but-valid / sentinel-like / non-ASCII names and contents
     "root/empty": "",
     "root/empty.j2": "",
@@ -176,11 +185,13 @@ def probe(path):
         return [KIND["OTHER"], b""]
 
 
-def mkcfg(rpath, filemode, template, suffix="", key="", ph=None, target_raw=None):
+def mkcfg(rpath, filemode, template, suffix="", key="", ph=None, target_raw=None, literal=False):
     cfg = {"rpath": rpath, "filemode": filemode, "target": "rootfile.txt" if filemode else "root", "suffix": suffix,
            "key": key, "ph": ph, "cont": True, "ign": 0, "template": template, "tpre": "", "tsuf": ""}
     if target_raw is not None:
         cfg["target_raw"] = target_raw
+    if literal:
+        cfg["target_literal"] = True
     return cfg
 
 
@@ -191,7 +202,10 @@ RAW_FILES = ["rootfile.txt", "./rootfile.txt", "$BASE/root/../rootfile.txt", "no
              "$BASE/rootfile.txt/below", "root", "root/a/../f.txt"]
 # root_dir spellings for which the unchanged code serves nothing at all (see docs/C04.md, "Found about the real
 # code"); only generated when C04_NONNORMAL_ROOT=1
-RAW_ROOTS_NONNORMAL = ["./root", "$BASE/sub/../root", "$BASE//root", "root/."]
+RAW_ROOTS_NONNORMAL = ["./root", "$BASE/sub/../root", "$BASE//root", "root/.",
+                       # a symbolic link followed by "..": lexical normalisation names another directory (a decoy is there)
+                       "linkcur/../data", "$BASE/linkcur/../data", "$BASE/rootlink/../root"]
+RAW_FILES_NONNORMAL = ["linkcur/../data/f.txt", "$BASE/linkcur/../data/nothere.txt", "./rootlink/../rootfile.txt"]
 
 
 def all_configs():
@@ -208,10 +222,22 @@ def all_configs():
     # a suffix that is not a plain extension: it is appended after normpath, verbatim (TFTP only, no template:
     # Jinja's loader would normalise the name once more)
     out.append(mkcfg("/", False, False, "/../f.txt"))
-    roots = RAW_ROOTS + (RAW_ROOTS_NONNORMAL if os.environ.get("C04_NONNORMAL_ROOT") else [])
     for template in (True, False):
-        for raw in roots:
+        for raw in RAW_ROOTS:
             out.append(mkcfg("/", False, template, "", target_raw=raw))
+        # not lexically normalised: by default the model gets the configured text (the property by its letter:
+        # not-found or exactly the file the OS means); C04_NONNORMAL_ROOT=1 hands the model the normalised path instead
+        # and so demands that existing files are served (shows the observation of docs/C04.md)
+        for raw in RAW_ROOTS_NONNORMAL:
+            out.append(mkcfg("/", False, template, "", target_raw=raw, literal=not os.environ.get("C04_NONNORMAL_ROOT")))
+        out.append(mkcfg("/p", False, template, ".j2", target_raw="linkcur/../data", literal=True))
+        for raw in RAW_FILES_NONNORMAL:
+            # with a template engine the unchanged code opens os.path.abspath(file) (lexical), i.e. another file when a
+            # symbolic link is followed by "..": known finding D27; those few cases are generated at the very end of the
+            # run (d27_cases) so that they cannot use up the slots for failing cases
+            if template:
+                continue
+            out.append(mkcfg("/p", True, template, target_raw=raw, literal=True))
         out.append(mkcfg("/p", False, template, ".j2", target_raw="root"))
         for raw in RAW_FILES:
             out.append(mkcfg("/p", True, template, target_raw=raw))
@@ -223,6 +249,27 @@ def prefixes(cfg):
     if cfg["key"]:
         return [rp.replace("...", "v"), rp.replace("...", "%2e%2e")]
     return ["" if rp == "/" else rp]
+
+
+def link_then_dotdot(path):
+    """does the configured path have a component that is a symbolic link, followed (later) by a ".." component?"""
+    parts = path.split("/")
+    for i in range(1, len(parts)):
+        prefix = "/".join(parts[:i]) or "/"
+        if ".." in parts[i:] and os.path.islink(os.path.join(fileh.base_dir(), prefix)):
+            return True
+    return False
+
+
+def d27_cases():
+    """known finding D27: file mode + template + configured `file` with a symbolic link followed by '..'"""
+    for raw in RAW_FILES_NONNORMAL:
+        cfg = mkcfg("/p", True, True, target_raw=raw, literal=True)
+        for tftp, uri in ((False, "/p"), (True, "/p"), (True, "p"), (False, "/p?x"), (False, "/p/")):
+            yield {"tftp": tftp, "cfg": cfg, "uri": uri}
+
+
+D27_CLAUSES = {"confined", "file_mode_single_file", "serves_the_named_file", "not_regular_is_not_found"}
 
 
 class C04(Check):
@@ -252,7 +299,7 @@ class C04(Check):
         for rel, content in TREE.items():
             fileh.write_file(rel, content)
         os.chdir(fileh.base_dir())       # relative root_dir / file options are relative to this directory
-        for link, target in (("rootlink", "root"), ("linkdir", ".")):
+        for link, target in (("rootlink", "root"), ("linkdir", "."), ("linkcur", "releases/v2/app")):
             if not os.path.lexists(link):
                 os.symlink(target, link)
         # warm up lazily imported modules so that their files are not counted as opened by a request
@@ -474,6 +521,9 @@ class C04(Check):
                         seen.add(u)
                         yield {"tftp": tftp, "cfg": cfg, "uri": u}
 
+        for c in d27_cases():
+            yield c
+
     # ---- implementation
     def impl(self, c):
         cfg, tftp, uri = c["cfg"], c["tftp"], c["uri"]
@@ -507,7 +557,9 @@ class C04(Check):
             finally:
                 _REC["on"] = False
         opened = [p for p in _REC["paths"] if not p.startswith(_PY_DIRS)]
-        if cfg.get("target_raw") is not None:
+        if cfg.get("target_literal"):
+            opened = [p if p.startswith("/") else fileh.base_dir() + "/" + p for p in opened]     # absolute, not normalised
+        elif cfg.get("target_raw") is not None:
             # configured relative / non-normalised: compare what the opened names denote
             opened = [os.path.abspath(os.path.join(fileh.base_dir(), p)) for p in opened]
         return [True, True, opened, cls, body if body is not None else b""]
@@ -534,16 +586,56 @@ class C04(Check):
         if plain:
             obs = [self.impl(c) for _, c in plain]
             q = run_model(self.ident, [sx([0] + self.cfgline(c)) for _, c in plain])
-            lines = [self.full_line(c, o, self.paths_of(ans, c), None) for (_, c), o, ans in zip(plain, obs, q)]
+            wants = [self.paths_of(ans, c) for (_, c), ans in zip(plain, q)]
+            for k, ((_, c), w) in enumerate(zip(plain, wants)):
+                if c["cfg"].get("target_literal"):
+                    # root_dir / file not lexically normalised: an opened path counts as the named file when it denotes
+                    # the same file to the operating system (root/./x and root/x; never the lexical twin of link/../x)
+                    obs[k] = obs[k][:2] + [self.same_file_as(obs[k][2], w)] + obs[k][3:]
+            lines = [self.full_line(c, o, w, None) for (_, c), o, w in zip(plain, obs, wants)]
             outs = run_model(self.ident, lines)
-            for (i, c), o, ln, res in zip(plain, obs, lines, outs):
+            for (i, c), o, w, ln, res in zip(plain, obs, wants, lines, outs):
                 r = self.parse_out(ln, res)
+                if c["cfg"].get("target_literal") and isinstance(r[0], list) and len(r[0]) > 2:
+                    mo = [x.decode("latin-1") if isinstance(x, bytes) else "".join(map(chr, x)) for x in r[0][2]]
+                    r[0][2] = deep_sxstr(self.same_file_as(mo, w))
                 out[i] = (c, o, r[0], names(r[1]), names(r[2]), r[3:])
         hist = [(i, c) for i, c in enumerate(cases) if "hist" in c]
         if hist:
             for (i, _), r in zip(hist, self.eval_histories([c for _, c in hist])):
                 out[i] = r
         return out
+
+    @staticmethod
+    def same_file_as(paths, wanted):
+        res = []
+        for p in paths:
+            rp = os.path.realpath(p)
+            res.append(next((w for w in reversed(wanted) if os.path.realpath(w) == rp), p))   # the named file is last
+        return res
+
+    def match_known(self, entry, case, failed):
+        """D27 only: file mode, template engine, configured `file` with a symbolic link followed by "..", the clauses
+        of that family - and the model of the current code (loader opens the lexically normalised name) must
+        reproduce the observation exactly; anything else stays a violation"""
+        if entry.get("id") != "D27" or "hist" in case or case.get("via_server"):
+            return False
+        cfg = case["cfg"]
+        if not (cfg["filemode"] and cfg["template"] and cfg.get("target_literal") and cfg.get("target_raw")
+                and link_then_dotdot(fileh.target_configured(cfg) if cfg["target_raw"].startswith("$BASE")
+                                     else cfg["target_raw"])):
+            return False
+        if not failed or not set(failed) <= D27_CLAUSES:
+            return False
+        try:
+            (c, o, m, fm, fi, rest), = self.evaluate([case])
+        except Exception:                # noqa
+            return False
+        return bool(fi) and set(fi) <= D27_CLAUSES and self.canon(o) == m
+
+    def model_should_hold(self, c):
+        # cases outside the hypotheses of C04_holds (root not lexically normalised) are judged on the implementation only
+        return not c["cfg"].get("target_literal")
 
     def paths_of(self, ans, c):
         if ans.startswith("#") or ans.startswith("!"):
